@@ -37,3 +37,43 @@ Proof.
   destruct w as [[w0 w1] w2], r as [[r0 r1] r2]. unfold cross, crossR, vQ2R.
   rewrite !Qreals.Q2R_minus, !Qreals.Q2R_mult. reflexivity.
 Qed.
+
+(* ------------------------------------------------------------------ Euler pole round trip *)
+From Verif Require Import Lib.Atan2.
+
+Lemma spherical_cartesian_roundtrip_l lat lon om :
+  -90 < lat < 90 -> -180 < lon <= 180 -> 0 < om ->
+  to_spherical (to_cartesian (lat, lon, om)) = (lat, lon, om).
+Proof.
+  intros Hlat Hlon Hom. pose proof PI_RGT_0 as Hpi.
+  unfold to_spherical, to_cartesian.
+  set (la := lat * deg2rad). set (lo := lon * deg2rad). set (w := om * deg2rad / 1000000).
+  assert (Hw : 0 < w) by (unfold w, deg2rad; apply Rdiv_lt_0_compat; [apply Rmult_lt_0_compat; lra|lra]).
+  assert (Hla : - (PI / 2) < la < PI / 2).
+  { unfold la, deg2rad. split.
+    - replace (- (PI / 2)) with (-90 * (PI / 180)) by field. apply Rmult_lt_compat_r; lra.
+    - replace (PI / 2) with (90 * (PI / 180)) by field. apply Rmult_lt_compat_r; lra. }
+  assert (Hlo : - PI < lo <= PI).
+  { unfold lo, deg2rad. split.
+    - replace (- PI) with (-180 * (PI / 180)) by field. apply Rmult_lt_compat_r; lra.
+    - replace PI with (180 * (PI / 180)) at 2 by field. apply Rmult_le_compat_r; lra. }
+  assert (Hc : 0 < cos la) by (apply cos_gt_0; lra).
+  assert (E1 : w * cos la * cos lo * rad2mas * mas2rad = (w * cos la) * cos lo) by (unfold rad2mas, mas2rad; field; lra).
+  assert (E2 : w * cos la * sin lo * rad2mas * mas2rad = (w * cos la) * sin lo) by (unfold rad2mas, mas2rad; field; lra).
+  assert (E3 : w * sin la * rad2mas * mas2rad = w * sin la) by (unfold rad2mas, mas2rad; field; lra).
+  rewrite E1, E2, E3.
+  assert (K : 0 < w * cos la) by (apply Rmult_lt_0_compat; assumption).
+  assert (S1 : sqrt (w * cos la * cos lo * (w * cos la * cos lo) + w * cos la * sin lo * (w * cos la * sin lo)) = w * cos la).
+  { replace (w * cos la * cos lo * (w * cos la * cos lo) + w * cos la * sin lo * (w * cos la * sin lo))
+      with ((w * cos la) * (w * cos la) * ((sin lo)² + (cos lo)²)) by (unfold Rsqr; ring).
+    rewrite sin2_cos2, Rmult_1_r. apply sqrt_square. lra. }
+  assert (S2 : sqrt (w * cos la * cos lo * (w * cos la * cos lo) + w * cos la * sin lo * (w * cos la * sin lo)
+                     + w * sin la * (w * sin la)) = w).
+  { replace (w * cos la * cos lo * (w * cos la * cos lo) + w * cos la * sin lo * (w * cos la * sin lo) + w * sin la * (w * sin la))
+      with (w * w * ((cos la)² * ((sin lo)² + (cos lo)²) + (sin la)²)) by (unfold Rsqr; ring).
+    rewrite sin2_cos2, Rmult_1_r, Rplus_comm, sin2_cos2, Rmult_1_r. apply sqrt_square. lra. }
+  rewrite S2, S1.
+  rewrite (atan2_polar w la Hw) by lra.
+  rewrite (atan2_polar (w * cos la) lo K Hlo).
+  f_equal; [f_equal|]; unfold la, lo, w, deg2rad, rad2deg; field; lra.
+Qed.
